@@ -9,7 +9,7 @@ use crate::rng::Rng;
 #[derive(Clone, Debug)]
 pub struct T { pub kind: char, pub code: i32, pub inline_skip: Option<i32> }
 #[derive(Clone, Debug)]
-pub struct Doc { pub cram: bool, pub role: char, pub docskip: Option<i32>, pub total_ms: Option<u64>, pub tests: Vec<T> }
+pub struct Doc { pub cram: bool, pub role: char, pub docskip: Option<i32>, pub total_ms: Option<u64>, pub tests: Vec<T>, pub fileno: usize }   // the document is the file doc<fileno>.<md|t>
 
 fn effective_skip(d: &Doc, t: &T) -> i32 { t.inline_skip.or(d.docskip).unwrap_or(80) }
 
@@ -86,7 +86,7 @@ pub fn gen_run(r: &mut Rng) -> (Vec<Doc>, Option<u64>) {
         let cram = r.chance(1, 3);
         let n = r.range(1, 5);
         let docskip = if !cram && r.chance(1, 4) { Some(*r.pick(&[3, 7, 42])) } else { None };
-        let mut d = Doc { cram, role: 'm', docskip, total_ms: None, tests: vec![] };
+        let mut d = Doc { cram, role: 'm', docskip, total_ms: None, tests: vec![], fileno: 0 };
         let style = r.below(5);
         for _ in 0..n {
             let mut t = T { kind: 'P', code: 0, inline_skip: None };
@@ -114,23 +114,29 @@ pub fn gen_run(r: &mut Rng) -> (Vec<Doc>, Option<u64>) {
         if r.chance(1, 2) { tests.push(T { kind: *r.pick(&['P', 'O']), code: 0, inline_skip: None }); }
         tests.push(T { kind: 'T', code: 0, inline_skip: None });
         for _ in 0..r.range(0, 2) { tests.push(T { kind: *r.pick(&['P', 'O', 'D']), code: 0, inline_skip: None }); }
-        docs.push(Doc { cram: false, role: 'm', docskip: None, total_ms: None, tests });
+        docs.push(Doc { cram: false, role: 'm', docskip: None, total_ms: None, tests, fileno: 0 });
     }
     let any_cram = docs.iter().any(|d| d.cram);
-    if r.chance(1, 4) {
-        let n = r.range(1, 2);
-        docs.push(Doc { cram: any_cram, role: 'p', docskip: None, total_ms: None, tests: (0..n).map(|_| T { kind: if r.chance(1, 4) { 'O' } else { 'P' }, code: 0, inline_skip: None }).collect() });
+    for role in ['p', 'a'] {
+        if r.chance(1, 4) {
+            // one or two documents, given in this order on the command line
+            for _ in 0..(if r.chance(1, 3) { 2 } else { 1 }) {
+                let n = r.range(1, 2);
+                docs.push(Doc { cram: any_cram, role, docskip: None, total_ms: None, fileno: 0, tests: (0..n).map(|_| T { kind: if r.chance(1, 4) { 'O' } else { 'P' }, code: 0, inline_skip: None }).collect() });
+            }
+        }
     }
-    if r.chance(1, 4) {
-        let n = r.range(1, 2);
-        docs.push(Doc { cram: any_cram, role: 'a', docskip: None, total_ms: None, tests: (0..n).map(|_| T { kind: if r.chance(1, 4) { 'O' } else { 'P' }, code: 0, inline_skip: None }).collect() });
-    }
+    // file names: in half of the runs the order in which the documents are given is not the order of their names
+    let mut nos: Vec<usize> = (0..docs.len()).collect();
+    if r.chance(1, 2) { for i in (1..nos.len()).rev() { let j = r.below(i as u64 + 1) as usize; nos.swap(i, j); } }
+    if r.chance(1, 6) { for x in nos.iter_mut() { *x += 8; } }   // doc8, doc9, doc10, doc11: numeric order is not lexicographic order
+    for (d, no) in docs.iter_mut().zip(nos) { d.fileno = no; }
     if cli_timeout.is_some() { for d in docs.iter_mut() { if !d.cram && d.role == 'm' { d.total_ms = None; } } }
     (docs, cli_timeout)
 }
 
 fn show_doc(d: &Doc) -> String {
-    format!("{}{}:{}:{}:{}", if d.cram { 'c' } else { 'm' }, d.role, d.docskip.map_or("-".to_string(), |k| k.to_string()),
+    format!("{}{}{}:{}:{}:{}", if d.cram { 'c' } else { 'm' }, d.role, d.fileno, d.docskip.map_or("-".to_string(), |k| k.to_string()),
         d.total_ms.map_or("-".to_string(), |k| k.to_string()),
         d.tests.iter().map(|t| format!("{}{}{}", t.kind, if t.kind == 'C' || t.kind == 'E' { t.code.to_string() } else { String::new() }, t.inline_skip.map_or(String::new(), |k| format!("i{}", k)))).collect::<Vec<_>>().join(","))
 }
@@ -142,7 +148,7 @@ pub fn run(docs: &[Doc], cli_timeout: Option<u64>, scrut: &str, base: &Path) -> 
     let marks = dir.path().join("marks");
     let mut mains = vec![]; let mut pres = vec![]; let mut apps = vec![];
     for (i, d) in docs.iter().enumerate() {
-        let name = format!("doc{}.{}", i, if d.cram { "t" } else { "md" });
+        let name = format!("doc{}.{}", d.fileno, if d.cram { "t" } else { "md" });
         let p = dir.path().join(&name);
         std::fs::write(&p, if d.cram { render_cram(d, i, &marks) } else { render_md(d, i, &marks) }).unwrap();
         match d.role { 'm' => mains.push(name), 'p' => pres.push(p), _ => apps.push(p) }
